@@ -484,7 +484,7 @@ func cmdCheck(args []string) {
 	// ---- evidence
 	ev := evidence{PropertyID: prop, Tier: *tierS, Seed: seed, Level: "model_checking", WallS: time.Since(t0).Seconds(), Violations: violations}
 	cov := map[string]interface{}{}
-	var states, trans, queries, asserts, validated int64
+	var states, trans, queries, asserts, validated, solverDec int64
 	var solverS float64
 	funcs := map[string]bool{}
 	stubs := map[string]bool{}
@@ -493,7 +493,8 @@ func cmdCheck(args []string) {
 	for _, r := range runs {
 		st := r.Stats
 		states += st.Paths
-		trans += st.Transitions
+		trans += st.Edges
+		solverDec += st.Transitions
 		queries += st.Queries
 		asserts += st.AssertChecks
 		solverS += float64(st.SolverNS) / 1e9
@@ -529,6 +530,7 @@ func cmdCheck(args []string) {
 	cov["samples"] = samples
 	cov["harnesses"] = hs
 	cov["queries"] = queries
+	cov["solver_decided"] = solverDec
 	cov["solver_s"] = solverS
 	cov["solver"] = "z3 4.8.12 (z3 -in, one process per worker, (reset) per path, push/pop per query, no set-logic)"
 	cov["functions_encoded"] = keys(funcs)
@@ -536,7 +538,7 @@ func cmdCheck(args []string) {
 	cov["inconclusive"] = inconclusive
 	cov["known_findings_hit"] = knownHit
 	cov["exhaustive"] = len(inconclusive) == 0
-	cov["explanation"] = "states = feasible paths of the real SSA explored to completion; transitions = solver-decided branch/size/assert decisions; every assertion check is the query PC ∧ ¬assertion decided by z3 for all values of the symbolic inputs within the harness bounds; traces_validated_against_impl = solver models replayed on the native build with identical observations (or reproduced violations)"
+	cov["explanation"] = "states = feasible paths of the real SSA explored to completion; transitions = edges of the explored decision tree (solver-decided branch/size decisions plus harness/scheduler choices); solver_decided = decisions and assertions put to z3; every assertion check is the query PC ∧ ¬assertion decided by z3 for all values of the symbolic inputs within the harness bounds; traces_validated_against_impl = solver models replayed on the native build with identical observations (or reproduced violations)"
 	cov["load_s"] = ld.loadS
 	ev.Coverage = cov
 	ev.Assumptions = append([]string{
